@@ -485,7 +485,7 @@ def r14_18(run, model):
                 if l.get("init") is not None and any(True for _ in S.calls(l["init"], "load_interface_from_paths", "read_interface")):
                     loaders |= set(S.pat_bindings(l["pat"]))
             # collections the loaded units are pushed into
-            colls = {next(iter(S.idents(mc["recv"]))) for mc in S.walk(f.body) if mc["k"] == "MethodCall" and mc["method"] == "push"
+            colls = {next(iter(S.idents(mc["recv"]))) for mc in S.walk(f.body) if mc["k"] == "MethodCall" and mc["method"] in ("push", "insert", "push_back")
                      and mc["recv"]["k"] == "Path" and any(S.idents(a) & loaders for a in mc["args"])}
             fills = [mc for mc in S.walk(f.body) if mc["k"] == "MethodCall" and mc["method"] == "apply_to" and any(env[0] in S.idents(a) for a in mc["args"])
                      and mc["sp"][0] <= c["sp"][0]]
